@@ -37,7 +37,6 @@ OPEN_BENIGN = {
  "C01-y2", "C03-y3", "C08-y2",  # ReadN/WriteN retry loop behind a closure / a struct with methods
  "C03-y2",                      # the error of a decoding step carried in a result struct
  "C06-y2",                      # credentials bundled in a struct with a wellFormed flag
- "C09-y1",                      # grammar construction split over constructor functions in a new file
  "C15-y3",                      # per-connection state of server.handle in a struct with methods
 }
 
@@ -72,7 +71,8 @@ def run_one(it):
     return mid, expect, caught, rules, bad, p.stdout
 
 def main():
-    sel = set(sys.argv[1:])
+    update = "--update" in sys.argv  # re-run the selected changes and rewrite their rows of MATRIX.md
+    sel = set(a for a in sys.argv[1:] if a != "--update")
     its = [i for i in items() if not sel or i[0] in sel]
     rows = []
     with concurrent.futures.ThreadPoolExecutor(max_workers=int(os.environ.get("JOBS", "4"))) as ex:
@@ -89,6 +89,19 @@ def main():
             f.write("| change | expected | caught by | rules firing |\n|---|---|---|---|\n")
             for mid, expect, caught, rules, ok, bad in rows:
                 f.write(f"| {mid} | {expect} | {', '.join(caught) or '—'}{'' if ok else ' **UNEXPECTED**'} | {' '.join(rules)} |\n")
+    if sel and update and os.path.exists(f"{VERIF}/seeded/MATRIX.md"):
+        new = {mid: f"| {mid} | {expect} | {', '.join(caught) or '—'}{'' if ok else ' **UNEXPECTED**'} | {' '.join(rules)} |\n" for mid, expect, caught, rules, ok, bad in rows}
+        lines = open(f"{VERIF}/seeded/MATRIX.md").read().splitlines(True)
+        seen = set()
+        for i, l in enumerate(lines):
+            m = re.match(r"\| (\S+) \|", l)
+            if m and m.group(1) in new:
+                lines[i] = new[m.group(1)]
+                seen.add(m.group(1))
+        for mid in new:
+            if mid not in seen:
+                lines.append(new[mid])
+        open(f"{VERIF}/seeded/MATRIX.md", "w").write("".join(lines))
     print(f"{len(rows)} changes, {nbad} unexpected")
     sys.exit(1 if nbad else 0)
 
